@@ -14,6 +14,8 @@ def run(ver):
     core.table_sweep(ver, binp, wd, {"enc"})
     # each built-in Encode impl: the typed events of C01 (value, bytes) with the verdict restricted to "bytes = reference encoding"
     core.validate_traces(ver, binp, "c01", "Trace_Typed", wd, gen_args=["300" if ver.tier == "quick" else "1500"], only_why={"enc"})
+    # ... data::Token among them: token sequences through Token's Encode impl (the events of C11, verdict restricted to the bytes written)
+    core.validate_traces(ver, binp, "c11", "Trace_C11", wd, stage="trace_tokens", gen_args=["400" if ver.tier == "quick" else "4000"], only_name={"toks"}, only_why={"tokenc", "tokboth"})
     ver.assumptions += ["TLC evaluates the TLA+ operators correctly",
                         "the 2^32 sweep of the quantifier runs against the class table of MC_Tables (every third argument in thorough, a 1/4099 stratum in quick) next to exhaustive 8/16-bit ranges, +-3 around every power of two, 0..2^17 and seeded random arguments validated by TLC",
                         "determinism is checked by executing every call sequence twice",
